@@ -4,7 +4,47 @@ Each job runs one rapid property (Go test function) of harness/props in N shard 
 checks[tier] is the TOTAL number of generated cases over all shards.
 """
 
+BUF_MODEL = ("rapid state machine over bigbuff.Buffer inside a testing/synctest bubble (virtual time, exact quiescence): rules "
+             "put(0-4 values, ctx nil/bg/cancelled), newConsumer, get (launched; ctx nil/bg/cancellable/pre-cancelled), cancelGet, "
+             "commit, rollback, closeConsumer (incl. with uncommitted reads), closeBuffer, advance(fraction of cooldown), "
+             "setCleaner(default|fixed(max,target)|never|scripted shifts), Range/Buffer.Range with scripted callbacks "
+             "(continue/stop/panic/put/cancel); cooldown in {0,1us,1ms,10ms,1s} or untouched defaults; reference model = put "
+             "order G, evicted count, per-consumer (committed, uncommitted) checked after every step at quiescence "
+             "(values, errors, enabledness of blocked calls, Size/Slice/Diff, cleaner-call log replay, leak check at end). ")
+
+
+def bufstep(prof, quick, thorough, steps=40):
+    return {"name": "bufstep", "test": "TestBufStep", "steps": steps,
+            "checks": {"quick": quick, "thorough": thorough},
+            "shards": {"quick": 8, "thorough": 16},
+            "env": {"VKIT_PROFILE": prof}}
+
+
 CONFIG = {
+    "C01": {
+        "rule": BUF_MODEL + "non-trivial = >=2 consumers alive at once AND >=1 eviction while a consumer was open AND >=1 batch of >=2 values; distinct = hash of the executed op trace.",
+        "jobs": [bufstep("C01", 24000, 800000)],
+    },
+    "C02": {
+        "rule": BUF_MODEL + "non-trivial = a rollback of >=2 uncommitted values followed by a re-read, or a Range ended by a callback panic; distinct = hash of the executed op trace.",
+        "jobs": [bufstep("C02", 24000, 800000)],
+    },
+    "C03": {
+        "rule": BUF_MODEL + "non-trivial = >=1 eviction while a consumer was open AND (a lagging consumer was observed OR uncommitted reads existed at eviction time); distinct = hash of the executed op trace.",
+        "jobs": [bufstep("C03", 24000, 800000)],
+    },
+    "C04": {
+        "rule": BUF_MODEL + "non-trivial = a state change placed strictly inside a cooldown window that was later followed by an eviction, or values freed by closing the slowest consumer; distinct = hash of the executed op trace.",
+        "jobs": [bufstep("C04", 24000, 800000)],
+    },
+    "C05": {
+        "rule": BUF_MODEL + "non-trivial = a waking event (Put / cancel / Close) issued while a Get was observed blocked at quiescence; distinct = hash of the executed op trace.",
+        "jobs": [bufstep("C05", 24000, 800000)],
+    },
+    "C12": {
+        "rule": BUF_MODEL + "non-trivial = a Close launched while another op on the handle was in flight or uncommitted reads existed AND >=2 handles closed in non-creation order; distinct = hash of the executed op trace.",
+        "jobs": [bufstep("C12", 24000, 800000)],
+    },
     "C19": {
         "rule": ("rapid-generated function signatures (reflect.FuncOf over a 19-type grammar, 0-4 params, optional "
                  "variadic tail, 0-3 results) with a reflect.MakeFunc recorder; argument lists correct or perturbed "
